@@ -66,7 +66,9 @@ pub fn tape() -> BoxedStrategy<Vec<u8>> {
         3 => vec(any::<u8>(), 1..64),
         1 => vec(prop_oneof![Just(0u8), Just(1u8), Just(INTERRUPT_FROM)], 1..16),
         // long runs of consecutive interruptions (a decoder that gives up after N retries needs N in a row)
-        3 => (1usize..48, vec(any::<u8>(), 1..6)).prop_map(|(k, tail)| {
+        // (the progressing entries after the run move at least half of what is offered: 47 interruptions per BYTE
+        // would turn a 300 kB value into tens of millions of calls)
+        3 => (1usize..48, vec(0x70u8..INTERRUPT_FROM, 1..6)).prop_map(|(k, tail)| {
             let mut t = vec![0xFFu8; k];
             t.extend(tail);
             t
